@@ -7,6 +7,7 @@ import (
 	"fmt"
 	"math"
 	"math/rand"
+	"os"
 	"sort"
 	"strings"
 	"testing"
@@ -108,8 +109,11 @@ func (s *sim) rotate(judged bool) (string, string) {
 	oc, on, had := s.set()
 	res, v := vkit.JudgeRotate(s.w, s.cfg, false, nil)
 	s.calls++
-	if v.Key != "" {
-		return v.Key, v.What // C08-level failure: reported under its own key by the caller
+	if v.Key != "" && !(os.Getenv("VERIF_C09_INVARIANTS_ONLY") == "1" && res.Outcome != vkit.Failed && res.Outcome != "") {
+		// C08-level failure: reported under its own key by the caller. (The switch
+		// VERIF_C09_INVARIANTS_ONLY is a sensitivity experiment only: it silences the
+		// embedded C08 judge so that the trust-continuity invariants have to speak.)
+		return v.Key, v.What
 	}
 	nc, nn, _ := s.set()
 	for _, r := range []rootView{nc, nn} {
@@ -484,3 +488,114 @@ func TestEnum_Grid(t *testing.T) {
 var _ = bytes.Equal
 var _ = rotation.RotateRootCertificates
 var _ = nodeenrollment.RootsMessageId
+
+// TestRealTime_Grounding (thorough tier): the same invariants against the REAL
+// clock and the real TLS code. Lifetime 8 s, skews -1 s / +1 s (V = 10 s); the
+// server rotates every 3 s, the node rotates its credentials every 2 s (its
+// bound is (10-3)/2 - 1.5 = 2 s), and dials every 300 ms for ~25 s. The oracle is
+// the model evaluated on the OBSERVED certificates with a 1.5 s tolerance: a dial
+// is required to succeed only when the node's stored credentials contain a chain
+// whose leaf and issuing root are valid throughout [t-1.5 s, t+1.5 s] and whose
+// issuer is in the server's stored root set, so load or second-granularity
+// truncation cannot cause a false alarm.
+func TestRealTime_Grounding(t *testing.T) {
+	if !vkit.Thorough() && os.Getenv("VERIF_C09_REALTIME") == "" {
+		t.Skip("thorough tier only")
+	}
+	shard, _ := vkit.Shard()
+	if shard >= 4 {
+		t.Skip("four shards run the real-time history")
+	}
+	rec := vkit.Rec(prop)
+	cfg := vkit.RootConfig{L: 8 * time.Second, NB: -time.Second, NA: time.Second}
+	w := vkit.NewWorld(vkit.WorldConfig{StorageWrapper: shard%2 == 1, RootOpts: cfg.Opts()})
+	defer w.Close()
+	rig := vkit.NewRig(w, vkit.RigConfig{})
+	defer rig.Close()
+	node := vkit.NewActor("node")
+	if err := w.Enroll(node); err != nil {
+		t.Fatalf("enroll: %v", err)
+	}
+	start := time.Now()
+	lastServer, lastNode := start, start
+	prev := w.Roots()
+	var hist []string
+	dials, required, promotions := 0, 0, 0
+	tol := 1500 * time.Millisecond
+	for time.Since(start) < 25*time.Second {
+		now := time.Now()
+		if now.Sub(lastServer) >= 3*time.Second {
+			lastServer = now
+			cur, err := rotation.RotateRootCertificates(w.Ctx, w.Store, w.O(cfg.Opts()...)...)
+			if err != nil {
+				t.Fatalf("rotate: %v", err)
+			}
+			if !bytes.Equal(cur.Current.PublicKeyPkix, prev.Current.PublicKeyPkix) {
+				if !bytes.Equal(cur.Current.PublicKeyPkix, prev.Next.PublicKeyPkix) {
+					vkit.Violate(t, prop, "C09/trust-reset/real-time", fmt.Sprintf("at %.1fs the root set changed without promoting the previous next", time.Since(start).Seconds()), map[string]any{"history": hist})
+					return
+				}
+				promotions++
+				hist = append(hist, fmt.Sprintf("%.1fs promote", time.Since(start).Seconds()))
+			}
+			prev = cur
+		}
+		if now.Sub(lastNode) >= 2*time.Second {
+			lastNode = now
+			if err := w.RotateNodeCreds(node); err != nil {
+				vkit.Violate(t, prop, "C09/node-rotation-failed/real-time", fmt.Sprintf("at %.1fs the node could not rotate its credentials: %v", time.Since(start).Seconds(), err), map[string]any{"history": hist})
+				return
+			}
+			hist = append(hist, fmt.Sprintf("%.1fs node rotates credentials", time.Since(start).Seconds()))
+		}
+		// model on observed data
+		at := time.Now()
+		creds, err := types.LoadNodeCredentials(w.Ctx, node.Store, nodeenrollment.CurrentId)
+		if err != nil {
+			t.Fatalf("load creds: %v", err)
+		}
+		roots := w.Roots()
+		must, holds := false, false
+		for _, b := range creds.CertificateBundles {
+			leaf, _ := x509.ParseCertificate(b.CertificateDer)
+			ca, _ := x509.ParseCertificate(b.CaCertificateDer)
+			inSet := bytes.Equal(b.CaCertificateDer, roots.Current.CertificateDer) || bytes.Equal(b.CaCertificateDer, roots.Next.CertificateDer)
+			covers := func(c *x509.Certificate) bool {
+				return !at.Add(-tol).Before(c.NotBefore) && !at.Add(tol).After(c.NotAfter)
+			}
+			if inSet && covers(leaf) && covers(ca) {
+				must = true
+			}
+			// generous reading for the "holds a chain at all" invariant: one second of slack either way
+			if inSet && !at.Add(time.Second).Before(leaf.NotBefore) && !at.Add(-time.Second).After(leaf.NotAfter) {
+				holds = true
+			}
+		}
+		conn, derr := rig.Dial(node)
+		outs := rig.Sync()
+		dials++
+		if conn != nil {
+			_ = conn.Close()
+		}
+		for _, o := range outs {
+			if o.Conn != nil {
+				_ = o.Conn.Close()
+			}
+		}
+		if must {
+			required++
+			if derr != nil {
+				vkit.Violate(t, prop, "C09/dial-failed-with-valid-trusted-chain/real-time", fmt.Sprintf("at %.1fs the node holds a chain that is valid (with 1.5 s to spare) and issued by a root the server trusts, but the dial failed: %v", time.Since(start).Seconds(), derr), map[string]any{"history": hist})
+				return
+			}
+		} else if !holds {
+			vkit.Violate(t, prop, "C09/node-without-trusted-chain/real-time", fmt.Sprintf("at %.1fs the node, keeping its cadence, holds no chain that is valid (even with 1 s of slack) and issued by a root the server trusts", time.Since(start).Seconds()), map[string]any{"history": hist})
+			return
+		}
+		time.Sleep(300 * time.Millisecond)
+	}
+	rec.Case("real-time-history", fmt.Sprint(shard), promotions >= 3, func() any {
+		return map[string]any{"config": cfg.String(), "dials": dials, "dials_required_to_succeed": required, "promotions": promotions, "history": hist}
+	})
+	rec.Count("real_time_dials", int64(dials))
+}
